@@ -4,6 +4,7 @@ mod corrupt;
 mod crashopen;
 mod exec;
 mod filter;
+mod free;
 mod model;
 mod tablecase;
 
@@ -218,6 +219,7 @@ fn main() {
         Some("tablecase") => tablecase::run(&args[2..]),
         Some("corrupt") => corrupt::run(&args[2..]),
         Some("conc") => conc::run(&args[2..]),
+        Some("free") => free::run(&args[2..]),
         Some("crashopen") => crashopen::run(&args[2..]),
         _ => {
             eprintln!("usage: harness replay --in F --out F [...]");
